@@ -399,6 +399,29 @@ def commutative_conflicts(rng, tree, k=4):
     return out
 
 
+def perturb_move_to_another_field(rng, frag):
+    """a subtree is moved from one optional field of its parent to another one that is empty (the lower bound of a slice becomes
+    its upper bound, the test of an assert its message...): the pattern no longer describes the program"""
+    cands = []
+    for n in ast.walk(frag):
+        if isinstance(n, ast.Slice):
+            for a, b in (('lower', 'upper'), ('upper', 'lower'), ('lower', 'step'), ('upper', 'step')):
+                if getattr(n, a) is not None and getattr(n, b) is None:
+                    cands.append((n, a, b))
+        elif isinstance(n, ast.Call) and len(n.args) == 1 and not n.keywords and isinstance(n.args[0], ast.BinOp):
+            cands.append((n, 'args', 'keywords'))
+    if not cands:
+        return None
+    n, a, b = rng.choice(cands)
+    if a == 'args':
+        n.keywords = [ast.keyword(arg='moved_here', value=n.args[0])]
+        n.args = []
+    else:
+        setattr(n, b, getattr(n, a))
+        setattr(n, a, None)
+    return 'subtree-moved-to-another-field-of-its-parent'
+
+
 def perturb_extra_name_in_a_name_list(rng, frag):
     """global/nonlocal statements hold a plain list of names: one more name, which the program never mentions"""
     nodes = [n for n in ast.walk(frag) if isinstance(n, (ast.Global, ast.Nonlocal))]
@@ -427,7 +450,7 @@ def run_program(ctx, rng, src, origin, foreign_patterns):
         if ms and '__' in d.pattern:
             sub_queries(ctx, rng, src, d.pattern, ms)
         # perturbations of the same fragment
-        for fn in rng.sample(['absent-identifier', 'absent-literal', 'literal-type', 'look-alike', 'swap', 'conflict', 'callee-and-argument', 'callee-under-operator', 'ellipsis', 'name-list'], 4):
+        for fn in rng.sample(['absent-identifier', 'absent-literal', 'literal-type', 'look-alike', 'swap', 'conflict', 'callee-and-argument', 'callee-under-operator', 'ellipsis', 'name-list', 'other-field'], 4):
             frag = cc.clone(d.fragment)
             if fn == 'absent-identifier':
                 kind = perturb_absent_identifier(rng, frag)
@@ -447,6 +470,10 @@ def run_program(ctx, rng, src, origin, foreign_patterns):
                 kind = perturb_ellipsis(rng, frag, consts)
             elif fn == 'name-list':
                 kind = perturb_extra_name_in_a_name_list(rng, frag)
+            elif fn == 'other-field':
+                kind = perturb_move_to_another_field(rng, frag)
+                if kind and ast.unparse(ast.fix_missing_locations(cc.clone(frag))).replace(' ', '') in src.replace(' ', ''):
+                    kind = None           # (the program happens to contain the moved form as well)
             else:
                 kind = perturb_conflicting_placeholder(rng, frag)
             if kind is None:
@@ -455,7 +482,7 @@ def run_program(ctx, rng, src, origin, foreign_patterns):
                 pattern = ast.unparse(ast.fix_missing_locations(frag))
             except Exception:
                 continue
-            must_be_empty = kind in ('extra-absent-name-in-a-global-or-nonlocal-list', 'absent-identifier', 'absent-literal', 'literal-of-other-type', 'literal-look-alike-of-other-kind', 'literal-replaced-by-ellipsis')
+            must_be_empty = kind in ('subtree-moved-to-another-field-of-its-parent', 'extra-absent-name-in-a-global-or-nonlocal-list', 'absent-identifier', 'absent-literal', 'literal-of-other-type', 'literal-look-alike-of-other-kind', 'literal-replaced-by-ellipsis')
             ctx.seen('perturbations', kind)
             check(ctx, src, pattern, kind, must_be_empty=must_be_empty)
     # expression-level patterns (the trimmed pattern root is an expression), verbatim and with one placeholder on two names
@@ -553,4 +580,4 @@ def replay(ctx, case):
     kind = case.get('perturbation', 'derived')
     check(ctx, case['src'], case['pattern'], kind,
           must_be_empty=kind in ('absent-identifier', 'absent-literal', 'literal-of-other-type', 'literal-look-alike-of-other-kind', 'foreign-pattern-with-absent-content',
-                                 'extra-absent-name-in-a-global-or-nonlocal-list'))
+                                 'extra-absent-name-in-a-global-or-nonlocal-list', 'subtree-moved-to-another-field-of-its-parent'))
